@@ -192,3 +192,18 @@ Definition check_jetscape (tf ti : string -> option Q) (pv : Q -> bool) (pc : Q 
 
 Definition qtable (t : list (Q * Q)) : Q -> Q :=
   fun q => match find (fun e => Qeq_bool (fst e) q) t with Some e => snd e | None => 0 end.
+
+(* C07: damaged files; error classes compared loosely *)
+Definition check_jdamaged (tf ti : string -> option Q) (pv : Q -> bool) (pc : Q -> Q) (sq : Q -> Q)
+           (file : list line) (defstr : string) (obs : jobserved) : nat :=
+  match jload tf ti pv pc sq None file defstr SelAll, obs with
+  | Err e, JObsErr e' => if err_eqb e e' then 0 else 1
+  | Ok ld, JObsOk ev n c two s1 s2 =>
+    if negb (list_eqb (list_eqb jparticle_eqb) (j_events ld) ev) then 3
+    else if negb (j_nevents ld =? n)%Z then 4
+    else if negb (list_eqb zz_eqb (j_counts ld) c) then 5
+    else if negb (Qeq_bool (fst (j_sigma ld)) s1 && Qeq_bool (snd (j_sigma ld)) s2) then 8
+    else 0
+  | Ok _, JObsErr _ => 9
+  | Err _, JObsOk _ _ _ _ _ _ => 10
+  end%nat.
